@@ -255,10 +255,12 @@ def gen_tod(tier):
                 continue
             yield {'pts': pts, 'kind': 'series'}
     else:
-        # one day only
+        # one day only, and every proper subset of day 1 against a full day 2
         for r in range(1, 7):
             for hs in itertools.combinations(range(6), r):
                 yield {'pts': list(hs), 'kind': 'series'}
+                if r < 6:
+                    yield {'pts': list(hs) + list(range(6, 12)), 'kind': 'series'}
 
 
 def check_tod(case):
@@ -320,7 +322,7 @@ POS_T = list(range(2 * NDAYS + 1))
 
 def gen_stitch(tier):
     """one case = k patterns + all bound positions but the last one (check_stitch loops over the last bound, the direction, the spelling and n)"""
-    plan = [(2, PATS_Q2, POS_Q), (3, PATS_Q3, POS_Q3)] if tier == 'quick' else [(2, PATS_T2, POS_T), (3, PATS_T3, POS_T), (4, PATS_T4, POS_Q3)]
+    plan = [(2, PATS_Q2, POS_Q), (3, PATS_Q3, POS_Q)] if tier == 'quick' else [(2, PATS_T2, POS_T), (3, PATS_T3, POS_T), (4, PATS_T4, POS_Q3)]
     for k, pats, pos in plan:
         for ps in itertools.product(pats, repeat=k):
             for head in itertools.combinations(pos[:-1], k - 1):
@@ -518,7 +520,7 @@ def _check_unslice(out, df_slice, df_unslice, frame, B, n, label, sig):
 def suites(tier, seed):
     N = 6 if tier == 'quick' else 7
     if tier == 'quick':
-        splan = 'k=2: %d patterns per series, k=3: %d patterns, bound positions %s resp. %s' % (len(PATS_Q2), len(PATS_Q3), POS_Q, POS_Q3)
+        splan = 'k=2: %d patterns per series, k=3: %d patterns, bound positions %s' % (len(PATS_Q2), len(PATS_Q3), POS_Q)
     else:
         splan = 'k=2: %d patterns per series, k=3: %d patterns, all 13 bound positions; k=4: %d patterns, bound positions %s' % (
             len(PATS_T2), len(PATS_T3), len(PATS_T4), POS_Q3)
@@ -531,7 +533,7 @@ def suites(tier, seed):
               rule=('subsets of a 2-day x 6-hour grid (%s) x lb, ub in {None, 00:00, 02:00 .. 22:00}^2 as datetime.time x 4 brackets; '
                     'non-trivial = the window wraps (lb > ub) or a bound equals a time of day present in the index') % (
                   'all 4096 subsets as Series, the 64 day-symmetric ones also as frame' if tier == 'thorough' else
-                  'the 64 subsets of hours on both days as Series and frame, and on one day only'),
+                  'the 64 subsets of hours on both days as Series and frame, on one day only, and against a full second day'),
               bounds=dict(hours=6, days=2, time_bounds=len(TBOUNDS))),
         Suite('stitch', lambda: gen_stitch(tier), check_stitch,
               rule='k series on a 6-day grid, each full/empty/with gaps (%s) x every strictly increasing k-list of bound positions, given increasing or '
